@@ -52,7 +52,11 @@ ASSUMPTIONS = [
     "record protection round trip per sequence number (premise of the data theorem; C07)",
     "server certificates: SM2 signing + encryption pair and one RSA certificate; client certificates: one issued by the CA, one with a forged issuer name",
 ]
-RULE = ("seeded generator (VERIF_SEED): 11 fixed completing configurations with 200 KiB / boundary payloads (GMSSL CBC and GCM, auto-switch GM and "
+RULE = ("seeded generator (VERIF_SEED): the completing matrix - each GMSSL suite x each ClientAuth policy x client certificate none/CA-issued/"
+        "forged issuer (+ mutual-authentication rows) with the payload sizes 0, 1, 16383, 16384, 16385, 40000 rotating through both directions; "
+        "every TLS suite the RSA certificate can run at every version it exists in (13 suites, 27 rows, single-suite lists); crypto/tls as "
+        "server and as client at TLS 1.0, 1.1, 1.2 over the suites it still implements (30 rows); the forbidden class is kept (pairwise "
+        "cover, policy matrix) but capped at about a third of the cases; then 11 fixed completing configurations with 200 KiB / boundary payloads (GMSSL CBC and GCM, auto-switch GM and "
         "TLS 1.2, TLS 1.0/1.1, GMSSL-only with callbacks, crypto/tls on either end); 8 ticket configurations with 2-3 connections from one client "
         "session cache; 8 close-after-write configurations (the writer closes right after its last write, the reader drains with a 100..4096 "
         "byte buffer until EOF: bytes before EOF must equal bytes written); the client-certificate policy matrix (5 policies x none/trusted/"
